@@ -25,16 +25,25 @@ def run():
              f"{driver.LIMS} given by fmt and by argument x 2 record sets x 10-12 life points (fresh; str; ch_text; "
              f"partial ch_text; setter before/after printing; remove_columns before/after printing; limits-only "
              f"setter after printing); "
+             f"(1c, exhaustive) tables with more table lines (records + break-by lines) than the default record "
+             f"limits 30:20 would show: {len(driver.MANY_COLS)} column sets (ranged / fixed / break-by) x "
+             f"{driver.NREC_MANY_THOROUGH if sz['pairs'] else driver.NREC_MANY} records x limits "
+             f"{driver.LIMS_MANY} (never given / off / equal to / above the default / small) given by fmt and by "
+             f"argument{'' if sz['pairs'] else ' (by argument: ' + str(driver.ARG_LIMS_MANY_QUICK) + ')'} x the same "
+             f"life points; "
              + (f"(2, exhaustive) all {nd * nd} ordered pairs of descriptions (repeated fields included) x 3 limits x 3 "
                 f"printed life points; " if sz['pairs'] else "")
              + f"(3, seeded random.Random('C13:seed:chunk'), {sz['random']} cases) 1-4 fields (plain / enum / bounded "
              f"type), 1-4 (thorough 1-5) columns with repeated and hidden (':-1' or unlisted) fields, 0-8 records, "
-             f"limits, header/footer, tuple / namedtuple / attribute records, histories of 0-4 random steps. "
+             f"limits, header/footer, tuple / namedtuple / attribute records, histories of 0-4 random steps; "
+             f"(3b, seeded random.Random('C13:seed:many:chunk'), {sz['random_many']} cases) the same with 45-140 records "
+             f"and limits around the default ones. "
              f"non-trivial = a ranged column was rendered before the format was serialised",
         exhaustive=False,
         extra={'families': {'1_single_descriptor': 'exhaustive',
                             '2_descriptor_pairs': 'exhaustive' if sz['pairs'] else 'not run in this tier',
-                            '3_random': 'seeded'}})
+                            '1c_more_lines_than_default_limits': 'exhaustive',
+                            '3_random': 'seeded', '3b_random_many_records': 'seeded'}})
     cov.update(ppart)
     _seen, _viol = set(), []
     for _v in pv + b.violations():
@@ -53,5 +62,5 @@ def run():
                    "not compared",
                    "'same rendering' = equal no-colour text, against an identically built twin table that was left "
                    "alone (rendering a table is itself a step of its life)",
-                   "bounded: <= 8 records, <= 5 columns, histories of <= 4 steps"],
+                   "bounded: <= 140 records, <= 5 columns, histories of <= 4 steps"],
                   t0)
